@@ -55,7 +55,7 @@ def _hassh_worker(args):
                 try:
                     got = getattr(o, attr_name)
                 except Exception as e:  # noqa
-                    acc.violation('hassh:%s:raises:%s' % (side, type(e).__name__), 'HASSH computation raises', w)
+                    acc.violation('hassh:%s:raises:%s' % (side, core.ename(e)), 'HASSH computation raises', w)
                     continue
                 if got != exp:
                     acc.violation('hassh:%s:differs' % side, '%s HASSH %s, md5 of the wire name-lists is %s'
@@ -80,8 +80,8 @@ def check_key(acc, o, w):
     except classes.documented_errors():
         return
     except Exception as e:  # noqa
-        acc.violation('fingerprint:raises:%s' % type(e).__name__, 'fingerprints of a %s raise %s' % (type(o).__name__,
-                                                                                                 type(e).__name__), w)
+        acc.violation('fingerprint:raises:%s' % core.ename(e), 'fingerprints of a %s raise %s' % (type(o).__name__,
+                                                                                                 core.ename(e)), w)
         return
     exp = ref.fingerprints(blob)
     fam = 'cert' if hasattr(o, 'certificate_type') else 'key'
@@ -164,7 +164,7 @@ def _ecdsa_worker(args):
         try:
             o = SshHostKeyECDSA.parse_exact_size(blob)
         except doc as e:
-            acc.violation('ecdsa:rejected:%s' % type(e).__name__, 'RFC 5656 blob %s / %s rejected: %s'
+            acc.violation('ecdsa:rejected:%s' % core.ename(e), 'RFC 5656 blob %s / %s rejected: %s'
                           % (name, ident, str(e)[:60]), w)
             continue
         acc.state(core.h64('ecdsa', name, ident, i))
@@ -242,7 +242,7 @@ def _wire_worker(args):
         try:
             fp = o.fingerprints
         except Exception as e:  # noqa
-            acc.violation('fingerprint:raises:%s' % type(e).__name__, 'fingerprints raise', w)
+            acc.violation('fingerprint:raises:%s' % core.ename(e), 'fingerprints raise', w)
             continue
         exp = ref.fingerprints(b)
         if fp.get(Hash.SHA2_256) != exp['SHA256'] or fp.get(Hash.SHA1) != exp['SHA1'] or fp.get(Hash.MD5) != exp['MD5']:
